@@ -6,6 +6,7 @@ from vlib import c01lib, common
 GO = dict(module="core", pkg=c01lib.PKG, pkgname=c01lib.PKGNAME,
           files=dict(c01lib.ENV_FILES, **{"zz_verif_c01_test.go": "c01/c01_test.go"}), run="TestVerifC01")
 PARAMS_NAME = c01lib.PARAMS_NAME
+EXTRA_PARAMS = c01lib.proto_params  # used by common.refresh_foreign_params (C15 depends on ParamsC01)
 HEADER = c01lib.HEADER + "From Hy Require Import corr.C01K_Corr corr.C01L_Corr.\n"   # check = C01_Corr.check && the product check && the lifecycle LTS accepts
 CORR_NAME = "C01L_Corr"
 PER_SHARD = 6
